@@ -2,6 +2,8 @@
 open Model
 open Model.DfsM
 type string = Stdlib.String.t
+let max = Stdlib.max
+let min = Stdlib.min
 open Conv
 
 let ni = n_of_int
